@@ -41,6 +41,7 @@ Chain(comps, k, blocker) ==          \* k leading components are directories, th
          [] blocker = "dangling" -> Put(dirs, next, Link(<<"zz">>))
 Init ==
     /\ raw \in Strings
+    /\ \A j \in 1..Len(Segs(raw)) : Segs(raw)[j] # ".."          \* never above the private root
     /\ \E k \in 0..Len(Comps(Segs(raw))), blocker \in {"none", "file", "linkdir", "dangling"} :
           /\ blocker # "none" => k < Len(Comps(Segs(raw)))
           /\ tree0 = Chain(Comps(Segs(raw)), k, blocker)
